@@ -255,6 +255,12 @@ tree_node_t *fstree_add_generic(fstree_t *fs, const sqfs_dir_entry_t *ent,
 		return NULL;
 	}
 
+	/* the ID table holds 32 bit values */
+	if (ent->uid > 0x0FFFFFFFFUL || ent->gid > 0x0FFFFFFFFUL) {
+		errno = EOVERFLOW;
+		return NULL;
+	}
+
 	if (ent->name[0] == '\0') {
 		child = fs->root;
 		assert(child != NULL);
